@@ -17,6 +17,9 @@ func (e *Engine) builtinGhosts() {
 	e.ghosts["closedch"] = &GhostDecl{Name: "closedch", Ty: specBool}  // channel is closed
 	e.ghosts["held"] = &GhostDecl{Name: "held", Ty: specBool}          // mutex held by the current thread
 	e.ghosts["released"] = &GhostDecl{Name: "released", Ty: specBool}  // resource ledger
+	e.ghosts["oncedone"] = &GhostDecl{Name: "oncedone", Ty: specBool} // sync.Once has run
+	e.ghosts["chancap"] = &GhostDecl{Name: "chancap", Ty: specInt}     // capacity of a channel (set at make)
+	e.ghosts["cancels"] = &GhostDecl{Name: "cancels", Ty: specInt}     // cancel function -> identity of the context it cancels
 }
 
 // refOf yields the identity (Int) of a reader/writer/context value.
@@ -277,12 +280,45 @@ func (e *Engine) registerIOExterns(reg regFn) {
 			st.assume("(or (= (i_tag " + v.T + ") 0) (> (i_tag " + v.T + ") " + fmt.Sprint(maxKnownTag) + "))")
 			return one(st, v)
 		})
+	reg("invoke:error.Error", "err.Error(): a deterministic function of the error value (uninterpreted)", func(x *Exec, st *State, fr *frame, c *ssa.CallCommon, args []Val, pos token.Pos) []callOut {
+		return one(st, x.e.errText(st, args[0]))
+	})
+	reg("context.WithCancel", "context.WithCancel(parent): a new context (cancelled whenever the parent is) and the function that cancels it", func(x *Exec, st *State, fr *frame, c *ssa.CallCommon, args []Val, pos token.Pos) []callOut {
+		rs := c.Signature().Results()
+		nctx := st.fresh("ctx", rs.At(0).Type())
+		st.assume("(not (= (i_tag " + nctx.T + ") 0))")
+		st.assume(eq("(i_ref "+nctx.T+")", st.newLoc("ctxobj")))
+		cf := Val{T: st.newLoc("cancelfn"), Ty: rs.At(1).Type()}
+		st.ghostWrite(st.ghost("cancels"), cf.T, "(i_ref "+nctx.T+")")
+		x.e.d.add("ctx_parent", "(declare-fun ctx_parent (Int) Int)")
+		st.assume("(= (ctx_parent (i_ref " + nctx.T + ")) " + refOf(st, args[0]) + ")")
+		return one(st, Val{Tuple: []Val{nctx, cf}, Ty: rs})
+	}, "gh:cancels", "alloc")
+	reg("context.WithTimeout", "context.WithTimeout(parent, d): as WithCancel", func(x *Exec, st *State, fr *frame, c *ssa.CallCommon, args []Val, pos token.Pos) []callOut {
+		rs := c.Signature().Results()
+		nctx := st.fresh("ctx", rs.At(0).Type())
+		st.assume("(not (= (i_tag " + nctx.T + ") 0))")
+		cf := st.fresh("cancel", rs.At(1).Type())
+		st.assume("(> " + cf.T + " 0)")
+		st.ghostWrite(st.ghost("cancels"), cf.T, "(i_ref "+nctx.T+")")
+		return one(st, Val{Tuple: []Val{nctx, cf}, Ty: rs})
+	}, "gh:cancels")
+	reg("context.WithValue", "context.WithValue: a context equivalent to its parent for cancellation", func(x *Exec, st *State, fr *frame, c *ssa.CallCommon, args []Val, pos token.Pos) []callOut {
+		return one(st, args[0])
+	})
+	newObj := func(x *Exec, st *State, fr *frame, c *ssa.CallCommon, args []Val, pos token.Pos) []callOut {
+		return one(st, Val{T: st.newLoc("obj"), Ty: c.Signature().Results().At(0).Type()})
+	}
+	reg("bufio.NewReaderSize", "returns a new non-nil reader object", newObj, "alloc")
+	reg("bufio.NewWriterSize", "returns a new non-nil writer object", newObj, "alloc")
+	reg("bufio.NewReader", "returns a new non-nil reader object", newObj, "alloc")
+	reg("bufio.NewWriter", "returns a new non-nil writer object", newObj, "alloc")
 	pureFresh := func(x *Exec, st *State, fr *frame, c *ssa.CallCommon, args []Val, pos token.Pos) []callOut {
 		return one(st, st.fresh("ext", c.Signature().Results()))
 	}
 	for _, n := range []string{"invoke:context.Context.Deadline", "invoke:context.Context.Value", "time.Now", "time.(Time).Add", "time.Unix", "time.(Time).UTC", "time.(Time).Unix",
 		"invoke:net.Conn.SetReadDeadline", "invoke:net.Conn.SetWriteDeadline", "invoke:net.Conn.SetDeadline", "invoke:net.Conn.RemoteAddr", "invoke:net.Conn.LocalAddr",
-		"invoke:net.Error.Timeout", "invoke:net.Error.Temporary", "invoke:error.Error"} {
+		"invoke:net.Error.Timeout", "invoke:net.Error.Temporary"} {
 		reg(n, "no effect on modelled state; arbitrary result", pureFresh)
 	}
 }
@@ -291,4 +327,10 @@ func (e *Engine) registerIOExterns(reg regFn) {
 func (st *State) markIOFail() {
 	c := st.heapTerm("gh:$iofail", "Int")
 	st.setHeap("gh:$iofail", "Int", "(+ "+c+" 1)")
+}
+
+// errText: err.Error() as an uninterpreted function of the error value.
+func (e *Engine) errText(st *State, v Val) Val {
+	e.d.add("errtext", "(declare-fun errtext (Iface) Str)")
+	return Val{T: "(errtext " + v.T + ")", Ty: types.Typ[types.String]}
 }
